@@ -378,6 +378,21 @@ func TestC07(t *testing.T) {
 			}
 		}
 	}
+	// always first: the two schedules with delayed Head() calls that defeated the interleaved form before /repo 7d16f07
+	for _, kind := range []string{"range", "answer"} {
+		run, ok, err := syncfx.RunStraddle(kind)
+		if err != nil {
+			t.Fatalf("corpus straddle/%s: %v", kind, err)
+		}
+		if !ok {
+			t.Logf("corpus case straddle/%s: the Head() calls did not park inside networkHead (call site changed); case not generated", kind)
+			continue
+		}
+		class := "corpus/straddle_" + kind
+		term := fmt.Sprintf("Case07 %s %d %s %s %s %s %s", emit.Z(run.Drift), run.Tail, run.Init, run.Chain, emit.List(run.Acts), emit.B(run.Wait), emit.List(run.Probe))
+		w.Add(term, map[string]any{"class": class, "what": run.Note}, class, true)
+		w.Count("class", class)
+	}
 	for _, sc := range scs {
 		runScenario(t, w, sc, rng)
 	}
